@@ -103,8 +103,9 @@ CONTRACTS = {
                       "ensures": {"the adapter is the evaluation of exactly this source text": "result is not None and result.g_code == code"},
                       "note": "eval of the generated lambda source (CPython evaluates the text; positional binding of the four call-site arguments to the lambda's parameters)"},
     "_State.__init__": {
-        "receivers": ["_State"], "ctor": True, "raises": True,
+        "receivers": ["_State"], "ctor": True, "raises": ["InvalidStateName", "ValueError"],
         "params": {"f": "Ref:PyFunc", "first": "Bool", "must_finish": "Bool", "duration": "Opt[Real]", "is_default": "Bool"},
+        "defaults": {"first": False, "must_finish": False, "is_default": False, "duration": None},
         "requires": dict({"a function object": "f is not None"}, **_SIG_WF),
         "local_sorts": {"args": "Seq[Str]", "invalid_args": "Seq[Str]"},
         "modifies": ["self.name", "self.description", "self.first", "self.must_finish", "self.is_default", "self.duration", "self.run"],
@@ -126,6 +127,19 @@ CONTRACTS = {
             "C12.V4 ValueError only for an illegal signature": "implies(exc == 'ValueError', not sig_ok(f))",
             "only these two errors": "exc == 'InvalidStateName' or exc == 'ValueError'",
         },
+    },
+    "default_state": {
+        "params": {"f": "Ref:PyFunc"}, "returns": "Ref:_State", "returns_fresh": True, "raises": ["InvalidStateName", "ValueError"], "requires": dict({"a function object": "f is not None"}, **_SIG_WF), "modifies": [],
+        "drop_callee_ensures": {"_State.__init__": ["C03.P1"]},
+        "ensures": {"C12.D1 @default_state makes a must_finish default state that is never the first state": "result is not None and result.is_default and result.must_finish and not result.first and result.name == f.__name__"},
+        "ensures_raise": {"only the definition errors of _State": "exc == 'InvalidStateName' or exc == 'ValueError'"},
+    },
+    "state": {
+        "params": {"f": "Ref:PyFunc", "first": "Bool", "must_finish": "Bool"}, "returns": "Ref:_State", "returns_fresh": True, "raises": ["InvalidStateName", "ValueError"], "modifies": [],
+        "requires": dict({"used directly on a function (@state); the keyword form @state(first=...) returns a lambda doing the same and is outside this contract": "f is not None"}, **_SIG_WF),
+        "drop_callee_ensures": {"_State.__init__": ["C03.P1"]},
+        "ensures": {"C12.D2 @state makes a plain state carrying the given flags, never a default state": "result is not None and not result.is_default and result.first == first and result.must_finish == must_finish and result.name == f.__name__"},
+        "ensures_raise": {"only the definition errors of _State": "exc == 'InvalidStateName' or exc == 'ValueError'"},
     },
     "_State.__call__": {
         "receivers": ["_State"], "params": {}, "raises": "IllegalCallError", "modifies": [],
